@@ -159,6 +159,7 @@ class Doc:
     setup: dict
     errors: list
     unknown: list
+    warnings: list = field(default_factory=list)
     ntoks: int = 0
     u_params: list = field(default_factory=list)
 
@@ -236,6 +237,7 @@ def parse(src, codepage: str = "cp1252") -> Doc:
     pages = [Page()]
     cur_setup = pages[0].setup
     unknown: list = []
+    warnings: list = []
     u_params: list = []
 
     class St:
@@ -411,7 +413,7 @@ def parse(src, codepage: str = "cp1252") -> Doc:
             if colors is None:
                 colors = []
             else:
-                errors.append(("second-colortbl", pos))
+                warnings.append(("second-colortbl", pos))
             continue
         if st.dest == "colortbl":
             if name in ("red", "green", "blue"):
@@ -439,7 +441,8 @@ def parse(src, codepage: str = "cp1252") -> Doc:
             cur_setup[name] = param
             continue
         if name == "landscape":
-            doc_setup["landscape"] = True
+            if len(pages) == 1 and not pages[0].blocks and not runs:
+                doc_setup["landscape"] = True
             cur_setup["landscape"] = True
             continue
         if name == "page":
@@ -528,7 +531,7 @@ def parse(src, codepage: str = "cp1252") -> Doc:
     if in_row or row_cells or row_defs:
         errors.append(("unterminated-row", None))
     return Doc(pages, fonts, colors, headers, footers, doc_setup, errors, unknown,
-               len(toks), u_params)
+               warnings, len(toks), u_params)
 
 
 # --------------------------------------------------------------------------
